@@ -24,6 +24,7 @@ import (
 	ammtypes "github.com/elys-network/elys/x/amm/types"
 	aptypes2 "github.com/elys-network/elys/x/assetprofile/types"
 	lptypes "github.com/elys-network/elys/x/leveragelp/types"
+	oracletypes2 "github.com/elys-network/elys/x/oracle/types"
 	ptypes "github.com/elys-network/elys/x/parameter/types"
 	perptypes "github.com/elys-network/elys/x/perpetual/types"
 	sstypes "github.com/elys-network/elys/x/stablestake/types"
@@ -106,6 +107,11 @@ func fillValue(rt *rapid.T, w *World, v reflect.Value, name string, depth int) {
 	lname := strings.ToLower(name)
 	switch v.Type() {
 	case decType:
+		if UniformDraw(rt, name+"/smalldec", 2) == 1 {
+			// fees, portions and the like: most validations want a value in [0, 0.02] or [0, 1]
+			v.Set(reflect.ValueOf(sdkmath.LegacyNewDecWithPrec(int64(UniformDraw(rt, name+"/dec4", 200)), 4)))
+			return
+		}
 		v.Set(reflect.ValueOf(sdkmath.LegacyNewDecWithPrec(int64(UniformDraw(rt, name+"/dec", 2000)), 3)))
 		return
 	case intType:
@@ -138,6 +144,11 @@ func fillValue(rt *rapid.T, w *World, v reflect.Value, name string, depth int) {
 	case reflect.Int32, reflect.Int64, reflect.Int:
 		v.SetInt(int64(UniformDraw(rt, name+"/i", 1000)))
 	case reflect.Uint32, reflect.Uint64, reflect.Uint:
+		if (strings.Contains(lname, "poolid") || lname == "id") && UniformDraw(rt, name+"/existing", 3) > 0 {
+			// an id that exists in the fixture (pools 1 and 2, positions and orders start at 1)
+			v.SetUint(uint64(1 + UniformDraw(rt, name+"/id12", 2)))
+			return
+		}
 		v.SetUint(uint64(UniformDraw(rt, name+"/u", 1000)))
 	case reflect.Ptr:
 		if depth > 4 {
@@ -308,12 +319,13 @@ func c17Fixture() (*World, error) {
 }
 
 type c17Case struct {
-	Property string          `json:"property"`
-	Kind     string          `json:"kind"`
-	URL      string          `json:"type_url"`
-	Msg      json.RawMessage `json:"msg"`
-	What     string          `json:"violation,omitempty"`
-	Plant    string          `json:"planted_record_authority,omitempty"` // the addressed record exists with this stored authority
+	Property   string          `json:"property"`
+	Kind       string          `json:"kind"`
+	URL        string          `json:"type_url"`
+	Msg        json.RawMessage `json:"msg"`
+	What       string          `json:"violation,omitempty"`
+	Plant      string          `json:"planted_record_authority,omitempty"` // the addressed record exists with this stored authority
+	Privileged bool            `json:"sender_holds_lesser_privileges,omitempty"`
 }
 
 func TestC17(t *testing.T) {
@@ -349,17 +361,22 @@ func TestC17(t *testing.T) {
 		if c.Plant != "" {
 			plantStoredAuthority(w, rctx, msg, c.Plant)
 		}
+		if c.Privileged {
+			if signers, _, err := w.App.AppCodec().GetMsgV1Signers(msg); err == nil && len(signers) == 1 {
+				grantLesserPrivileges(w, rctx, sdk.AccAddress(signers[0]))
+			}
+		}
 		if what := mustReject(w, rctx, msg); what != "" {
 			t.Fatalf("VIOLATION C17 (replay): %s", what)
 		}
 		return
 	}
 
-	curPlant := ""
+	curPlant, curPriv := "", false
 	fail := func(rt *rapid.T, msg sdk.Msg, what string) {
 		js, _ := w.App.AppCodec().MarshalInterfaceJSON(msg)
 		if p := os.Getenv("VERIF_FAILTRACE"); p != "" {
-			bz, _ := json.MarshalIndent(c17Case{Property: "C17", Kind: "c17-case", URL: sdk.MsgTypeURL(msg), Msg: js, What: what, Plant: curPlant}, "", " ")
+			bz, _ := json.MarshalIndent(c17Case{Property: "C17", Kind: "c17-case", URL: sdk.MsgTypeURL(msg), Msg: js, What: what, Plant: curPlant, Privileged: curPriv}, "", " ")
 			_ = os.WriteFile(p, bz, 0o644)
 		}
 		rt.Fatalf("VIOLATION C17: %s\nmessage: %s", what, js)
@@ -379,7 +396,7 @@ func TestC17(t *testing.T) {
 
 	rapid.Check(t, func(rt *rapid.T) {
 		ctx := caseCtx(w)
-		curPlant = ""
+		curPlant, curPriv = "", false
 		if UniformDraw(rt, "class", 3) > 0 {
 			// ---- governance class
 			g := govs[UniformDraw(rt, "type", len(govs))]
@@ -417,6 +434,14 @@ func TestC17(t *testing.T) {
 					kind += "+owns-stored-record"
 					curPlant = auth
 				}
+			}
+			// lesser privileges are not the governance authority: half of the time the sender holds every non-governance
+			// permission the modules know (allowed pool creator, whitelisted trader in leveragelp and perpetual, active
+			// price feeder) – the message must still be refused
+			if a, aerr := sdk.AccAddressFromBech32(auth); aerr == nil && len(a) > 0 && UniformDraw(rt, "privileged", 2) == 1 {
+				grantLesserPrivileges(w, ctx, a)
+				kind += "+holds-lesser-privileges"
+				curPriv = true
 			}
 			validBasic := safeValidateBasic(msg)
 			// the signer the ante handler would demand is exactly the authority field
@@ -474,6 +499,17 @@ func TestC17(t *testing.T) {
 		sum.record(fmt.Sprintf("%s|%s", sdk.MsgTypeURL(msg), att), validBasic, []string{"owner/" + sdk.MsgTypeURL(msg)}, map[string]any{"type": sdk.MsgTypeURL(msg), "attacker": w.nameOf(att), "validate_basic_ok": validBasic})
 	})
 	_ = ammtypes.ModuleName
+}
+
+// grantLesserPrivileges gives an address, in the case's branch of the state, every permission short of the
+// governance authority.
+func grantLesserPrivileges(w *World, ctx sdk.Context, a sdk.AccAddress) {
+	ap := w.App.AmmKeeper.GetParams(ctx)
+	ap.AllowedPoolCreators = append(append([]string{}, ap.AllowedPoolCreators...), a.String())
+	w.App.AmmKeeper.SetParams(ctx, ap)
+	w.App.LeveragelpKeeper.WhitelistAddress(ctx, a)
+	w.App.PerpetualKeeper.WhitelistAddress(ctx, a)
+	w.App.OracleKeeper.SetPriceFeeder(ctx, oracletypes2.PriceFeeder{Feeder: a.String(), IsActive: true})
 }
 
 // plantStoredAuthority writes, into the case's branch of the state, the record a message addresses with the
